@@ -130,6 +130,18 @@ SecpSMT.seven_nonsq SecpSMT3
 SecpSMT.not_kernel SecpSMT3
 SecpSMT.iso_pt SecpSMT3
 SecpSMT.X_ne SecpSMT3
+SecpSMT.sswu_computes_prose SecpSSWU
+SecpSMT.sswu_eq_prose SecpSSWU
+SecpSMT.sswu_x_eq_prose SecpSSWU
+SecpSMT.sswu_y_sq SecpSSWU
+SecpSMT.sswu_y_sign SecpSSWU
+SecpSMT.sswu_y_on_curve SecpSSWU
+SecpSMT.prose_gx_isSquare SecpSSWU
+SecpSMT.prose_y_indep SecpSSWU
+SecpSMT.prose_x1_eq SecpSSWU
+SecpSMT.prose_gx1_eq SecpSSWU
+SecpSMT.sswu_sqrt_ratio SecpSSWU
+SecpSMT.exc_isSquare SecpSSWU
 "
 # Lemma lines tagged `{lean: ASSUMED ...}` in the contract files: intentionally NOT proved.  They are never listed
 # under "theorems" (so nothing can read them as ok); stamp.json only names them under "assumed".
